@@ -175,6 +175,7 @@ package db
 //@   requires itr != nil && itr.source != nil
 //@   ensures [inside-namespace] itr.valid ==> itvalid[itr.source] && len(itr.prefix) <= len(itkeyS[itr.source]) && forall(i, imp(0 <= i && i < len(itr.prefix), at(itkeyS[itr.source], i) == at(itr.prefix, i)))
 //@   ensures [no-revival] itr.valid ==> old(itr.valid)
+//@   ensures [never-the-bare-prefix] itr.valid ==> len(itkeyS[itr.source]) > len(itr.prefix)
 //@   modifies *
 
 // Key: the parent key without the prefix
